@@ -23,15 +23,35 @@ let c12_at impl = if c12_old impl then GI.Legacy.g_at else GI.g_at
 let c12_back impl = if impl = "legacy" then GI.Legacy.g_back else GI.g_back
 let c12_size_bytes impl = if impl = "legacy" then GI.Legacy.g_size_bytes else GI.g_size_bytes
 
-let c12_grp goff ng bl elen =
-  { GI.g_ptr = goff; GI.g_end = Z.add goff elen; GI.g_bl = bl; GI.g_ng = ng }
+(* Dimension header.  Every command names the dimension composite of the group:
+     S B shape H obl ong
+   S / B = numInGroup / blockLength types, shape = which composite of the harness
+   schema (only the C++ side dispatches on it: std ext pad rev), H =
+   sbepp::size_bytes(dimension), obl / ong = offsets of blockLength / numInGroup
+   inside the composite.  c12f / c12g / c12n additionally carry the H header
+   bytes (hex, built by the Python side; the C++ side copies them verbatim in
+   front of the entries); the model works on the decoded values, so the header
+   bytes are decoded here with the model's own reader at the layout's offsets
+   and compared with the ng / bl of the case line (ERR-hdr otherwise). *)
+let c12_lay h obl ong =
+  { GI.h_size = z_of_string h; GI.h_bl = z_of_string obl; GI.h_ng = z_of_string ong }
 
-(* c12f impl chk S B goff ng bl elen start k (op arg)*k m *)
+let c12_grp lay goff ng bl elen =
+  { GI.g_ptr = goff; GI.g_end = Z.add goff elen; GI.g_hdr = lay.GI.h_size; GI.g_bl = bl; GI.g_ng = ng }
+
+let c12_hdr_ok s b lay hdr ng bl =
+  z_of_int (List.length hdr) = lay.GI.h_size
+  && GI.rd b hdr lay.GI.h_bl = Some bl
+  && GI.rd s hdr lay.GI.h_ng = Some ng
+
+(* c12f impl chk S B shape H obl ong hdr goff ng bl elen start k (op arg)*k m *)
 let cmd_c12f args =
   match args with
-  | impl :: chk :: s :: b :: goff :: ng :: bl :: elen :: start :: k :: rest ->
+  | impl :: chk :: s :: b :: _shape :: h :: obl :: ong :: hdr :: goff :: ng :: bl :: elen :: start :: k :: rest ->
     let chk = bool_of_string01 chk and s = ity_of_string s and b = ity_of_string b in
-    let g = c12_grp (z_of_string goff) (z_of_string ng) (z_of_string bl) (z_of_string elen) in
+    let lay = c12_lay h obl ong in
+    let g = c12_grp lay (z_of_string goff) (z_of_string ng) (z_of_string bl) (z_of_string elen) in
+    if not (c12_hdr_ok s b lay (bytes_of_hex hdr) g.GI.g_ng g.GI.g_bl) then "ERR-hdr" else
     let k = int_of_string k in
     let rec take n l acc =
       if n = 0 then (List.rev acc, l) else
@@ -65,12 +85,14 @@ let cmd_c12f args =
         (c12_out string_of_z (c12_subscript impl s b it m))) r
   | _ -> failwith "c12f: arity"
 
-(* c12g impl chk S B goff ng bl elen pos k *)
+(* c12g impl chk S B shape H obl ong hdr goff ng bl elen pos k *)
 let cmd_c12g args =
   match args with
-  | [impl; chk; s; b; goff; ng; bl; elen; pos; k] ->
+  | [impl; chk; s; b; _shape; h; obl; ong; hdr; goff; ng; bl; elen; pos; k] ->
     let chk = bool_of_string01 chk and s = ity_of_string s and b = ity_of_string b in
-    let g = c12_grp (z_of_string goff) (z_of_string ng) (z_of_string bl) (z_of_string elen) in
+    let lay = c12_lay h obl ong in
+    let g = c12_grp lay (z_of_string goff) (z_of_string ng) (z_of_string bl) (z_of_string elen) in
+    if not (c12_hdr_ok s b lay (bytes_of_hex hdr) g.GI.g_ng g.GI.g_bl) then "ERR-hdr" else
     let pos = z_of_string pos and k = nat_of_int (int_of_string k) in
     let z = c12_out string_of_z in
     let ptr o = z (GI.gbind o (fun it -> GI.GOk (GI.it_deref it))) in
@@ -85,27 +107,29 @@ let cmd_c12g args =
       (ptr (GI.gbind (GI.g_begin chk s b g) (GI.it_inc_n chk s b k)))
   | _ -> failwith "c12g: arity"
 
-(* c12r kind chk S B hex p elen count   (kind f|n: same model, both group bases) *)
+(* c12r kind chk S B shape H obl ong hex p elen count   (kind f|n: same model, both group bases) *)
 let cmd_c12r args =
   match args with
-  | [_kind; chk; s; b; hex; p; elen; count] ->
+  | [_kind; chk; s; b; _shape; h; obl; ong; hex; p; elen; count] ->
     let chk = bool_of_string01 chk and s = ity_of_string s and b = ity_of_string b in
+    let lay = c12_lay h obl ong in
     let buf = bytes_of_hex hex and p = z_of_string p in
     let e = Z.add p (z_of_string elen) and count = z_of_string count in
-    (match GI.g_resize chk s b buf p e count with
+    (match GI.g_resize chk s b lay buf p e count with
      | GI.GOk buf1 ->
-       let size = c12_out (fun g -> string_of_z g.GI.g_ng) (GI.read_grp chk s b buf1 p e) in
+       let size = c12_out (fun g -> string_of_z g.GI.g_ng) (GI.read_grp chk s b lay buf1 p e) in
        Printf.sprintf "resize=%s size=%s clear=%s" (hex_of_bytes buf1) size
-         (c12_out hex_of_bytes (GI.g_clear chk s b buf1 p e))
+         (c12_out hex_of_bytes (GI.g_clear chk s b lay buf1 p e))
      | GI.GAssert -> "resize=A size=- clear=-"
      | GI.GUB -> "resize=UB size=- clear=-")
   | _ -> failwith "c12r: arity"
 
-(* c12n chk S B pre bl cut k (ibl icnt)*k *)
+(* c12n chk S B shape H obl ong hdr pre bl cut k (ibl icnt)*k *)
 let cmd_c12n args =
   match args with
-  | chk :: s :: b :: pre :: bl :: cut :: k :: rest ->
+  | chk :: s :: b :: _shape :: h :: obl :: ong :: hdr :: pre :: bl :: cut :: k :: rest ->
     let chk = bool_of_string01 chk and s = ity_of_string s and b = ity_of_string b in
+    let lay = c12_lay h obl ong and hdr = bytes_of_hex hdr in
     let pre = int_of_string pre and bl = int_of_string bl and cut = int_of_string cut in
     let k = int_of_string k in
     let rec take n l acc =
@@ -118,15 +142,16 @@ let cmd_c12n args =
     let es = List.map (fun (ibl, icnt) ->
       { GI.ne_block = rep bl 0x11; GI.ne_ibl = z_of_int ibl; GI.ne_icnt = z_of_int icnt;
         GI.ne_ipay = rep (ibl * icnt) 0x22 }) ents in
-    let full = rep pre 0xEE @ GI.enc_nested s b (z_of_int bl) es @ rep 3 0x33 in
+    if not (c12_hdr_ok s b lay hdr (z_of_int k) (z_of_int bl)) then "ERR-hdr" else
+    let full = rep pre 0xEE @ GI.enc_nested hdr es @ rep 3 0x33 in
     let total = List.length full in
     let e = total - cut in
     let buf = List.filteri (fun i _ -> i < e) full in
     let p = z_of_int pre and e = z_of_int e in
     Printf.sprintf "n=%s starts=%s"
-      (c12_out string_of_z (GI.n_end_idx chk s b buf p e))
+      (c12_out string_of_z (GI.n_end_idx chk s b lay buf p e))
       (c12_out (fun l -> if l = [] then "-" else String.concat "," (List.map string_of_z l))
-         (GI.n_entries chk s b buf p e))
+         (GI.n_entries chk s b lay buf p e))
   | _ -> failwith "c12n: arity"
 
 let () =
